@@ -511,9 +511,17 @@ func (m *Model) ruleGUARDED(r *Results) {
 			}
 		}
 	}
+	m.flushGuard(r, rule)
 	if n < 25 {
 		r.undecided(rule, "instance-floor", "-", "only %d accesses to guarded fields found", n)
 	}
+}
+
+// guardVerdict is the outcome for one access to a guarded field.
+type guardVerdict struct {
+	key, pos, kind string
+	status         Status
+	msg            string
 }
 
 func (m *Model) checkGuard(r *Results, rule string, lm *lockModel, fl *fnLocks, fn *ssa.Function, g guardedField, kind string, at ssa.Instruction) {
@@ -529,21 +537,110 @@ func (m *Model) checkGuard(r *Results, rule string, lm *lockModel, fl *fnLocks, 
 			has = true
 		}
 	}
-	key := m.declName(fn) + " / " + g.Role + " " + kind
-	if has {
-		r.ok(rule, key, m.instrPos(at), "%s of the %s under %s", kind, g.What, g.Lock.Name())
-		return
+	v := guardVerdict{pos: m.instrPos(at), kind: kind}
+	switch {
+	case has:
+		v.key = m.declName(fn) + " / " + g.Role
+		v.status, v.msg = OK, fmt.Sprintf("%s of the %s under %s", kind, g.What, g.Lock.Name())
+	case func() bool { _, reached := lm.entry[fn]; return !reached }():
+		v.key = m.declName(fn) + " / " + g.Role
+		v.status, v.msg = Info, "function is not reachable from any root"
+	case kind == "read" && g.Field != m.A.ClosedField:
+		// reading the map REFERENCE of a field that is never reassigned is harmless; only map operations matter
+		v.key = m.declName(fn) + " / " + g.Role
+		v.status, v.msg = Info, "unlocked read of a field value"
+	default:
+		// the finding belongs to the context that runs this code without the lock: walk up through
+		// helpers to the function (by role) whose call arrives unlocked
+		bf := m.guardBlame(lm, fn, g.Lock, 0)
+		v.key = m.declName(bf) + " / " + g.Role
+		v.status = Violation
+		v.msg = fmt.Sprintf("%s of the %s at %s without holding %s (locks held there: %s)", kind, g.What, m.instrPos(at), g.Lock.Name(), held)
 	}
-	if _, reached := lm.entry[fn]; !reached {
-		r.info(rule, key, m.instrPos(at), "function is not reachable from any root")
-		return
+	m.guardAcc = append(m.guardAcc, v)
+}
+
+// guardBlame: the function an unguarded access is attributed to. An unexported helper that is
+// reached without the lock from exactly one calling function passes the blame to that caller.
+func (m *Model) guardBlame(lm *lockModel, fn *ssa.Function, lock *types.Var, depth int) *ssa.Function {
+	if depth > 4 || strings.HasPrefix(m.declName(fn), "<") || fn.Parent() != nil {
+		return fn
 	}
-	// reading the map REFERENCE of a field that is never reassigned is harmless; only map operations matter
-	if kind == "read" && g.Field != m.A.ClosedField {
-		r.info(rule, key, m.instrPos(at), "unlocked read of a field value")
-		return
+	if obj := fn.Object(); obj != nil && obj.Exported() {
+		return fn
 	}
-	r.bad(rule, key, m.instrPos(at), "%s of the %s without holding %s (locks held here: %s): a concurrent access from another goroutine is a data race; on a map it is a fatal \"concurrent map\" error that kills the process", kind, g.What, g.Lock.Name(), held)
+	unlocked := map[*ssa.Function]bool{}
+	for _, c := range m.staticCallersOf(fn) {
+		caller := c.Parent()
+		holds := false
+		if cfl := lm.fns[caller]; cfl != nil {
+			for l := range cfl.mustAt[c] {
+				if l.Field == lock {
+					holds = true
+				}
+			}
+		}
+		if !holds {
+			unlocked[caller] = true
+		}
+	}
+	if len(unlocked) != 1 {
+		return fn
+	}
+	for caller := range unlocked {
+		return m.guardBlame(lm, caller, lock, depth+1)
+	}
+	return fn
+}
+
+// flushGuard emits one obligation per (function, guarded field): violated if any access is.
+func (m *Model) flushGuard(r *Results, rule string) {
+	type group struct {
+		bad, ok, info []guardVerdict
+	}
+	groups := map[string]*group{}
+	var order []string
+	for _, v := range m.guardAcc {
+		g := groups[v.key]
+		if g == nil {
+			g = &group{}
+			groups[v.key] = g
+			order = append(order, v.key)
+		}
+		switch v.status {
+		case Violation:
+			g.bad = append(g.bad, v)
+		case OK:
+			g.ok = append(g.ok, v)
+		default:
+			g.info = append(g.info, v)
+		}
+	}
+	m.guardAcc = nil
+	for _, k := range order {
+		g := groups[k]
+		switch {
+		case len(g.bad) > 0:
+			var parts []string
+			for _, v := range g.bad {
+				parts = append(parts, v.msg)
+			}
+			r.bad(rule, k, g.bad[0].pos, "%s: a concurrent access from another goroutine is a data race; on a map it is a fatal \"concurrent map\" error that kills the process", strings.Join(uniq(parts), "; "))
+		case len(g.ok) > 0:
+			kinds := map[string]bool{}
+			for _, v := range g.ok {
+				kinds[v.kind] = true
+			}
+			var ks []string
+			for kd := range kinds {
+				ks = append(ks, kd)
+			}
+			sort.Strings(ks)
+			r.ok(rule, k, g.ok[0].pos, "%d access(es) (%s) under the owning mutex", len(g.ok), strings.Join(ks, ", "))
+		default:
+			r.info(rule, k, g.info[0].pos, "%s", g.info[0].msg)
+		}
+	}
 }
 
 // R-FEEDMAP: the registry field is assigned only in constructors; collection methods use their own name as key.
